@@ -1,6 +1,7 @@
 package worker
 
 import (
+	"runtime"
 	"net/http"
 	"strconv"
 	"strings"
@@ -94,6 +95,7 @@ type kernel struct {
 	yieldsTotal int64
 	switches    int64
 	stallIdx    int
+	turn        int32 // see awaitTurn
 	cpuDebt     int64
 	logStalls   int64
 	cpuSettles  int64
@@ -1040,9 +1042,28 @@ func (k *kernel) handoff(t *task, finished bool) {
 	}
 	var b byte = 1
 	rawWrite(next.wfd, &b)
+	k.turn = int32(next.id) // after the byte is in the pipe: whoever sees its turn finds the byte there
 	if !finished {
-		rawRead(t.rfd, &b)
+		k.awaitTurn(t)
 	}
+}
+
+// awaitTurn waits for the baton. The pipe alone decides who runs (one byte written per byte
+// read, nothing can be lost); before blocking in the read, the task that has just handed the
+// baton on looks at the plain word k.turn for a little while — in dense schedules the baton
+// is back within microseconds, and a blocking read would cost two thread wake-ups per switch.
+// The word is read and written in uninstrumented functions only: the race detector does not
+// see it, so it orders nothing for it.
+//
+//go:norace
+func (k *kernel) awaitTurn(t *task) {
+	me := int32(t.id)
+	for i := 0; i < 400 && k.turn != me; i++ {
+		runtime.Gosched()
+	}
+	var b byte
+	rawRead(t.rfd, &b)
+	k.turn = -1
 }
 
 //go:norace
